@@ -19,7 +19,7 @@
 From Verif Require Import Base.Prelude Model.Tree Model.Spec Model.VM Model.Writer Gen.RunnerGen
   Proofs.SpecBoundsProofs Proofs.VMLimitProofs Proofs.VMLimitSimProofs Proofs.VMCapacityProofs
   Proofs.VMU Proofs.VMUOps2 Proofs.VMUBridge Proofs.CompileBase Proofs.CompileDefs Proofs.CompileProofs
-  Proofs.CompileBalDen Proofs.CompileBalDefs Proofs.CompileBal Proofs.CompileTotal Proofs.CompileLimit.
+  Proofs.CompileBalDen Proofs.CompileBalDefs Proofs.CompileBal Proofs.CompileTotal Proofs.CompileLimit Proofs.CompileCfSafe.
 From Coq Require Import Relations ZifyBool.
 
 Lemma clt_weight c root p : codes p = fst (compile c root) -> track_count (codes p) <= trackcount p ->
@@ -141,6 +141,57 @@ Proof.
 Qed.
 
 Print Assumptions compile_find_dichotomy_partial.
+
+(* ---------- with the STATIC check of Proofs/CompileCfSafe.v instead of path_ok ----------
+   tyck_auto p = true is a decidable property of the program alone (no input, no run): the frame-shape
+   verifier accepts it.  cf_sound turns it into path_ok for every input and start position. *)
+Theorem compile_exec_total_typed :
+  forall (e : env) (p : program), 0 <= trackcount p -> track_count (codes p) <= trackcount p -> tlen e <= INF ->
+  forall fuel o body t0 r,
+  let root := NCapture o 0 (-1) body in
+  codes p = fst (compile cfg0 root) -> strings p = snd (compile cfg0 root) ->
+  supported2 root = true -> groups_ok2 (capsize p) root -> 0 <= t0 <= tlen e -> Z.of_nat fuel <= INF ->
+  attempt e fuel root t0 = Ok r ->
+  tyck_auto p = true ->
+  exists n : nat, forall L vfuel,
+    let x := exec_at e p L vfuel t0 in
+    ((x = Err E_StackLimit /\ 0 <= L) \/
+     ((n < 1000 * vfuel)%nat /\ exists s', x = Ok s') \/
+     ((1000 * vfuel <= n)%nat /\ x = Fuel)) /\
+    (L < 0 -> (n < 1000 * vfuel)%nat -> exists s', x = Ok s').
+Proof.
+  intros e p Htc Htk Htl fuel o body t0 r root Hcodes Hstr Hs Hg Ht0 Hf Hatt Hty.
+  exact (compile_exec_total_partial e p Htc Htk Htl fuel o body t0 r Hcodes Hstr Hs Hg Ht0 Hf Hatt (cf_sound e p Hty t0)).
+Qed.
+
+Print Assumptions compile_exec_total_typed.
+
+Theorem compile_find_dichotomy_typed :
+  forall (e : env) (p : program), 0 <= trackcount p -> track_count (codes p) <= trackcount p -> tlen e <= INF ->
+  forall fuel o body,
+  let root := NCapture o 0 (-1) body in
+  codes p = fst (compile cfg0 root) -> strings p = snd (compile cfg0 root) ->
+  supported2 root = true -> groups_ok2 (capsize p) root -> Z.of_nat fuel <= INF ->
+  (forall t, 0 <= t <= tlen e -> exists r, attempt e fuel root t = Ok r) ->
+  tyck_auto p = true ->
+  forall L vfuel rtl start prevlen, 0 <= start <= tlen e ->
+    let r1 := vm_find e p L vfuel rtl start prevlen in
+    let r2 := vm_find e p (-1) vfuel rtl start prevlen in
+    (r1 = Err E_StackLimit /\ 0 <= L) \/
+    match r1, r2 with
+    | Ok a, Ok b => same_result a b
+    | Fuel, Fuel => True
+    | _, _ => False
+    end.
+Proof.
+  intros e p Htc Htk Htl fuel o body root Hcodes Hstr Hs Hg Hf Hatt Hty.
+  exact (compile_find_dichotomy_partial e p Htc Htk Htl fuel o body Hcodes Hstr Hs Hg Hf Hatt (fun t _ => cf_sound e p Hty t)).
+Qed.
+
+Print Assumptions compile_find_dichotomy_typed.
+
+Example clt_demo_typed : tyck_auto c2_demo_prog = true /\ tyck_auto cc_demo_prog = true.
+Proof. split; vm_compute; reflexivity. Qed.
 
 (* ---------- instances: the hypotheses hold on the demos (monitor, by computation) ---------- *)
 Example clt_demo :
